@@ -225,6 +225,27 @@ class Effects:
             return "local", "/".join(kinds)
         if kinds[0] == "scalar":
             return "scalar", "/".join(kinds)
+        # a container parameter (tokens: list[Token]) is whatever the callers pass for it
+        if isinstance(root, ast.Name) and root.id in self._params(f) and _depth < 4 and "container" in kinds:
+            cats = []
+            for cs in self.cg.callers.get(f, []):
+                arg = self.arg_for_param(cs, f, root.id)
+                if arg is None:
+                    continue
+                parts = list(arg.values) if isinstance(arg, ast.BoolOp) else ([arg.body, arg.orelse] if isinstance(arg, ast.IfExp) else [arg])
+                for part in parts:
+                    if cs.caller is f:
+                        rt_ = access_path(part)[-1]
+                        if isinstance(rt_, ast.Name) and rt_.id == root.id:
+                            continue          # recursion on a part of the same structure
+                    if self.fresh_expr(cs.caller, part):
+                        cats.append("local")
+                    else:
+                        cats.append(self.classify(cs.caller, part, _depth + 1)[0])
+            if cats and not any(x.startswith(("shared", "global", "unknown")) for x in cats):
+                for pref in ("env", "percall", "local", "scalar"):
+                    if pref in cats:
+                        return pref, "via call sites: " + "/".join(cats)
         # root ownership through the bindings of a local alias (cache = state.cache; for tok in state.tokens: ...)
         if isinstance(root, ast.Name) and _depth < 5:
             srcs = self.binding_sources(f, root.id)
